@@ -2,6 +2,13 @@
 // Case grammar (see lean/Drivers/C18.lean):
 //
 //	isaff <pkgEco> <pkgName> <pkgVersion> <nAffected> { <eco> <name> <versions|-> <nRanges> { <E|S|O> <events|-> } }
+//
+// Streams: untied well-formed lists (wfEvents), well-formed lists WITH events sharing a version (tieEvents: single-version
+// intervals {introduced X, last_affected X}, adjacent intervals {fixed X, introduced X}, all three on one version; listed in
+// natural order, reversed, shuffled, with every tie group reversed = the closing event first, with the tied events spelled
+// differently, and with more than 12 events so that slices.SortFunc is not the stable insertion sort), near-ties (a
+// well-formed tied list with one kind changed) and arbitrary lists; queries at, just below and just above a tied version.
+// -tier thorough first enumerates EVERY well-formed list of length <= 5 over 7 ranks, tied ones in every listing order.
 package main
 
 import (
@@ -204,12 +211,140 @@ func wfEvents(r *rand.Rand, k int) []ev {
 	return es
 }
 
+// tieEvents builds a well-formed list IN (version, kind) ORDER whose intervals touch: each interval is opened on the
+// version on which the previous one was closed by `fixed` (adjacent intervals) with probability 1/2, and closed on the
+// very version that opens it by `last_affected` (single-version interval) with probability 1/2. want = number of events
+// aimed at (the 14 ranks bound it by 28). "0" is only ever an introduced version and never tied.
+func tieEvents(r *rand.Rand, want int) []ev {
+	var es []ev
+	next := r.Intn(3) // lowest rank the next `introduced` may take
+	adjacent := false // the previous interval was closed by `fixed` on rank next
+	for len(es) < want {
+		v := next
+		if !(adjacent && r.Intn(2) == 0) {
+			if adjacent {
+				v++
+			}
+			if want <= 6 {
+				v += r.Intn(3)
+			} else if r.Intn(4) == 0 {
+				v++
+			}
+		}
+		if v > maxRank {
+			break
+		}
+		es = append(es, ev{'i', v})
+		if len(es) >= want && r.Intn(2) == 0 {
+			break // the last interval stays open
+		}
+		switch {
+		case v != 0 && r.Intn(2) == 0: // exactly the version v
+			es = append(es, ev{'l', v})
+			next, adjacent = v+1, false
+		default:
+			c := v + 1
+			if want <= 6 {
+				c += r.Intn(3)
+			}
+			if c > maxRank {
+				return es
+			}
+			if r.Intn(3) > 0 {
+				es = append(es, ev{'f', c})
+				next, adjacent = c, true
+			} else {
+				es = append(es, ev{'l', c})
+				next, adjacent = c+1, false
+			}
+		}
+	}
+	return es
+}
+
+// relist returns the (version, kind)-ordered list in one of the listing orders a record may use.
+func relist(r *rand.Rand, sorted []ev, how int) []ev {
+	es := append([]ev{}, sorted...)
+	switch how {
+	case 0: // natural
+	case 1: // reversed
+		for i, j := 0, len(es)-1; i < j; i, j = i+1, j-1 {
+			es[i], es[j] = es[j], es[i]
+		}
+	case 2: // every group of events on one version reversed: the closing event of a single-version interval first,
+		// the opening of the next interval before the `fixed` of the previous one
+		for i := 0; i < len(es); {
+			j := i
+			for j < len(es) && es[j].v == es[i].v {
+				j++
+			}
+			for a, b := i, j-1; a < b; a, b = a+1, b-1 {
+				es[a], es[b] = es[b], es[a]
+			}
+			i = j
+		}
+	case 3: // all closing events first, then all openings
+		var cl, op []ev
+		for _, e := range es {
+			if e.k == 'i' {
+				op = append(op, e)
+			} else {
+				cl = append(cl, e)
+			}
+		}
+		es = append(cl, op...)
+	default:
+		r.Shuffle(len(es), func(i, j int) { es[i], es[j] = es[j], es[i] })
+	}
+	return es
+}
+
+// spellTies gives the events of one tie group different spellings where the ecosystem has two for that rank.
+func spellTies(r *rand.Rand, eco int, es []ev) {
+	for i := range es {
+		if es[i].v == 0 || es[i].v >= 100 {
+			continue
+		}
+		if _, ok := alt[eco%3][es[i].v]; !ok {
+			continue
+		}
+		tied := false
+		for j := range es {
+			if j != i && es[j].v%100 == es[i].v {
+				tied = true
+			}
+		}
+		if tied && r.Intn(3) == 0 {
+			es[i].v += 100
+		}
+	}
+}
+
+// tiedRanks lists the ranks on which two events of the list sit.
+func tiedRanks(es []ev) []int {
+	var out []int
+	for i := range es {
+		for j := i + 1; j < len(es); j++ {
+			if es[i].v%100 == es[j].v%100 {
+				out = append(out, es[i].v%100)
+			}
+		}
+	}
+	return out
+}
+
 func randEvents(r *rand.Rand) []ev {
 	n := r.Intn(6)
+	span := maxRank + 1
+	if r.Intn(2) == 0 { // few versions: events share them
+		span = 2 + r.Intn(3)
+		n = r.Intn(8)
+	}
+	base := r.Intn(maxRank + 2 - span)
 	es := make([]ev, n)
 	for i := range es {
 		k := "ifl"[r.Intn(3)]
-		v := r.Intn(maxRank + 1)
+		v := base + r.Intn(span)
 		if v == 0 && k != 'i' {
 			v = 1 + r.Intn(maxRank)
 		}
@@ -218,7 +353,51 @@ func randEvents(r *rand.Rand) []ev {
 	return es
 }
 
+// tieCase: one range with events sharing versions, queried at / just below / just above a tied version.
+func tieCase(r *rand.Rand) tcase {
+	c := tcase{peco: r.Intn(3), pname: 0}
+	want := 2 + r.Intn(5)
+	if r.Intn(5) == 0 {
+		want = 13 + r.Intn(12) // slices.SortFunc leaves insertion sort above 12 elements
+	}
+	sorted := tieEvents(r, want)
+	if r.Intn(6) == 0 && len(sorted) > 0 { // near-tie: one kind changed (mostly ill-formed; the model tells)
+		i := r.Intn(len(sorted))
+		if sorted[i].v != 0 {
+			sorted[i].k = "ifl"[r.Intn(3)]
+		}
+	}
+	es := relist(r, sorted, r.Intn(6))
+	spellTies(r, c.peco, es)
+	q := 1 + r.Intn(maxRank)
+	if tr := tiedRanks(es); len(tr) > 0 && r.Intn(8) != 0 {
+		q = tr[r.Intn(len(tr))] + r.Intn(3) - 1
+		if q < 1 {
+			q = 1
+		}
+		if q > maxRank {
+			q = maxRank
+		}
+	}
+	c.pver = pick(r, c.peco, q)
+	a := aff{eco: c.peco, name: 0, ranges: []rng{{typ: "EEES"[r.Intn(4)], evs: es}}}
+	if a.ranges[0].typ == 'S' && c.peco != 0 {
+		a.ranges[0].typ = 'E'
+	}
+	if r.Intn(4) == 0 { // a second, untied range next to it
+		a.ranges = append(a.ranges, rng{typ: 'E', evs: wfEvents(r, r.Intn(4))})
+		if r.Intn(2) == 0 {
+			a.ranges[0], a.ranges[1] = a.ranges[1], a.ranges[0]
+		}
+	}
+	c.affs = []aff{a}
+	return c
+}
+
 func randCase(r *rand.Rand) tcase {
+	if r.Intn(3) == 0 {
+		return tieCase(r)
+	}
 	c := tcase{peco: r.Intn(3), pname: r.Intn(2), pver: 1 + r.Intn(maxRank)}
 	c.pver = pick(r, c.peco, c.pver)
 	if r.Intn(25) == 0 {
@@ -241,9 +420,12 @@ func randCase(r *rand.Rand) tcase {
 		}
 		for k := 1 + r.Intn(2); k > 0; k-- {
 			rg := rng{typ: "EEESSO"[r.Intn(6)]}
-			if r.Intn(10) < 7 {
+			switch x := r.Intn(10); {
+			case x < 5:
 				rg.evs = wfEvents(r, r.Intn(6))
-			} else {
+			case x < 7:
+				rg.evs = relist(r, tieEvents(r, 2+r.Intn(5)), r.Intn(6))
+			default:
 				rg.evs = randEvents(r)
 			}
 			for i := range rg.evs {
@@ -258,21 +440,50 @@ func randCase(r *rand.Rand) tcase {
 	return c
 }
 
-// exhaustive: every well-formed event list of length ≤ 5 over the 6 even ranks (plus "0"), in the
-// sorted order and in two rotations/reversal, queried at every rank 1..13, for the three ecosystems.
+func kindOrd(k byte) int { return strings.IndexByte("fil", k) }
+
+// permutations calls f with every ordering of es (Heap's algorithm; f must copy).
+func permutations(es []ev, f func([]ev)) {
+	var rec func(n int)
+	rec = func(n int) {
+		if n <= 1 {
+			f(es)
+			return
+		}
+		for i := 0; i < n; i++ {
+			rec(n - 1)
+			if n%2 == 0 {
+				es[i], es[n-1] = es[n-1], es[i]
+			} else {
+				es[0], es[n-1] = es[n-1], es[0]
+			}
+		}
+	}
+	rec(len(es))
+}
+
+// exhaustive: every well-formed event list of length ≤ 5 over the 6 even ranks (plus "0") — events strictly increasing
+// in (version, kind: fixed, introduced, last_affected), so up to three of them may share a version — queried at every
+// rank 1..13, for the three ecosystems. Lists without a shared version are emitted in the sorted order, reversed and
+// rotated (their sorted form does not depend on the sort's stability); lists WITH a shared version in EVERY listing order.
 func exhaustive(emit func(tcase)) {
 	ranks := []int{0, 2, 4, 6, 8, 10, 12}
-	var rec func(start int, cur []ev)
-	rec = func(start int, cur []ev) {
+	var rec func(cur []ev)
+	rec = func(cur []ev) {
 		if len(cur) > 0 {
-			orders := [][]ev{cur}
-			if len(cur) > 1 {
-				rev := make([]ev, len(cur))
-				for i := range cur {
-					rev[len(cur)-1-i] = cur[i]
+			var orders [][]ev
+			if len(tiedRanks(cur)) > 0 {
+				permutations(append([]ev{}, cur...), func(p []ev) { orders = append(orders, append([]ev{}, p...)) })
+			} else {
+				orders = [][]ev{cur}
+				if len(cur) > 1 {
+					rev := make([]ev, len(cur))
+					for i := range cur {
+						rev[len(cur)-1-i] = cur[i]
+					}
+					rot := append(append([]ev{}, cur[1:]...), cur[0])
+					orders = append(orders, rev, rot)
 				}
-				rot := append(append([]ev{}, cur[1:]...), cur[0])
-				orders = append(orders, rev, rot)
 			}
 			for _, o := range orders {
 				for eco := 0; eco < 3; eco++ {
@@ -285,20 +496,23 @@ func exhaustive(emit func(tcase)) {
 		if len(cur) == 5 {
 			return
 		}
-		for i := start; i < len(ranks); i++ {
-			kinds := []byte{'i'}
-			if len(cur)%2 == 1 {
-				kinds = []byte{'f', 'l'}
-			}
-			if ranks[i] == 0 && len(cur)%2 == 1 {
-				continue
-			}
+		kinds := []byte{'i'}
+		if len(cur)%2 == 1 {
+			kinds = []byte{'f', 'l'}
+		}
+		for _, v := range ranks {
 			for _, k := range kinds {
-				rec(i+1, append(append([]ev{}, cur...), ev{k, ranks[i]}))
+				if v == 0 && k != 'i' {
+					continue
+				}
+				if n := len(cur); n > 0 && (v < cur[n-1].v || (v == cur[n-1].v && kindOrd(k) <= kindOrd(cur[n-1].k))) {
+					continue
+				}
+				rec(append(append([]ev{}, cur...), ev{k, v}))
 			}
 		}
 	}
-	rec(0, nil)
+	rec(nil)
 }
 
 func main() {
